@@ -61,6 +61,16 @@ class Svc(Service):
         CAP['args'] = (p,)
         return p.x if p is not None else None
 
+    @rpc(_returns=Point, _body_style='bare')
+    def status(ctx):
+        CAP['args'] = ()
+        return Point(x=1, y=2, label=u'ok')
+
+    @rpc(_returns=Unicode, _body_style='out_bare')
+    def motd(ctx):
+        CAP['args'] = ()
+        return u'hello'
+
     @rpc(Integer, _returns=Iterable(Integer))
     def gen(ctx, a):
         CAP['args'] = (a,)
@@ -214,3 +224,34 @@ def null_ignored_direct(sx, m):
     if nres[0] != 'ok' or not isinstance(nres[1], Ignored):
         return False
     return sx.And(sx.eq(nres[1].args[1], a), nargs is not None and len(nargs) == 1 and sx.eq(nargs[0], a))
+
+
+@harness('C18', params=['bare', 'status', 'motd'], functions=FUNCS[:3] + ['spyne.descriptor.MethodDescriptor.is_out_bare'],
+         bounds={'arguments': 'integers -3..3, strings of 0..2 chars; positional, keyword and mixed invocation'})
+def null_bare_styles(sx, m):
+    """NullServer alone, for the bare family: a complex argument passed field-wise arrives with every field whether the
+    fields are given positionally, by keyword or mixed; zero-argument bare / out_bare methods return the object itself"""
+    CAP.clear()
+    if m == 'status':
+        nargs, nres = null_call('status')
+        r = nres[1] if nres[0] == 'ok' else None
+        return isinstance(r, Point) and r.x == 1 and r.y == 2 and r.label == u'ok'
+    if m == 'motd':
+        nargs, nres = null_call('motd')
+        return nres == ('ok', u'hello')
+    a, b = sx.int('a', -3, 3), sx.int('b', -3, 3)
+    n = sx.choose('slen', [0, 1, 2])
+    s = sx.text('s', n, alphabet='ab') if n else u''
+    style = sx.choose('style', ['positional', 'keyword', 'mixed'])
+    if style == 'positional':
+        nargs, nres = null_call('bare', a, b, s)
+    elif style == 'keyword':
+        nargs, nres = null_call('bare', x=a, y=b, label=s)
+    else:
+        nargs, nres = null_call('bare', a, label=s, y=b)
+    if nres[0] != 'ok' or not nargs or not isinstance(nargs[0], Point):
+        return False
+    p = nargs[0]
+    want_label = s if (style == 'positional' or n) else None      # a falsy keyword value is "not given"
+    return sx.And(sx.eq(p.x, a), sx.eq(p.y, b), sx.eq(p.label, s) if n or style == 'positional' else (p.label in (None, u'')),
+                  sx.eq(nres[1], a))
